@@ -23,6 +23,7 @@ DRV = os.path.join(VERIF, "harness", "cpp", "session_drv.cc")
 RT = os.path.join(VERIF, "schemas", "rt.exp")
 HEAD = "ISO-10303-21;\n" + p21.HEADER % "RT" + "DATA;\n#1=TGT(1);\n"
 TAIL = "ENDSEC;\nEND-ISO-10303-21;\n"
+CHAR_INS = ["/", "*", "'", "(", ")", ",", ";", "#", "=", "$", ".", "\\", "\"", "!", "&", " ", "E", "0", "-", "\n"]
 
 
 def boundary_file(table, n):
@@ -138,15 +139,30 @@ def run(ctx):
             p = os.path.join(ind, "x%d_%d.p21" % (bi, m))
             open(p, "wb").write(bytes(b))
             inputs.append(("mutate:%d:%d" % (bi, m), p, drv))
+    # every single-character edit of the DATA section (spec/TokMut.tla on characters: each character deleted, doubled,
+    # swapped with its neighbour, each piece of CHAR_INS inserted at each offset) of the populations richest in typed
+    # select values, nested aggregates and strings
+    import re
+    from vf import tokmut
+
+    def richness(t):
+        return len(re.findall(r"[A-Z0-9_]\(", t)) + len(re.findall(r"['\"]", t)) // 2
+    rich = sorted([t for t in bases if len(t) - t.index("DATA;") <= 900], key=lambda t: (-richness(t), t))
+    charjobs = []
+    for bi, txt in enumerate(rich[:1 if ctx.quick else 5]):
+        for op, i, pp, new in tokmut.char_mutants(txt, txt.index("DATA;") + 6, CHAR_INS, ctx.work):
+            p = os.path.join(ind, "c%d_%s_%d_%d.p21" % (bi, op, i, pp))
+            open(p, "w", encoding="latin-1").write(new)
+            charjobs.append(("char:%s%s:%d:%d" % (op, "" if op != "ins" else repr(CHAR_INS[pp - 1]), bi, i), p, drv))
     env = dict(os.environ, **build.ASAN_ENV)
 
-    def one(j):
+    def one(j, limit=None):
         tag, p, driver = j
         base = os.path.basename(p)
         resf = os.path.join(wd, "res_" + base)
         out = os.path.join(wd, "out_" + base)
         script = "scenario x\nnew 0\nread %s\nstates\nwritenv %s\nwritews %s.ws\nquit\n" % (p, out, out)
-        limit = 60 + (os.path.getsize(p) if os.path.isfile(p) else 0) // 2000
+        limit = limit or 60 + (os.path.getsize(p) if os.path.isfile(p) else 0) // 2000
         t0 = time.time()
         try:
             q = subprocess.run([driver, resf], input=script.encode(), env=env, stdout=subprocess.DEVNULL, stderr=subprocess.PIPE, timeout=limit)
@@ -168,6 +184,25 @@ def run(ctx):
             if not frame and "terminate called" in err:
                 frame = "terminate: " + err.split("terminate called")[1][:80].strip().replace("\n", " ")
         return tag, rc, to, san, frame, round(time.time() - t0, 2), err[-700:]
+    def batch(js):
+        """many small files in one driver process; file by file only if the batch does not end cleanly"""
+        script = "".join("scenario x%d\nnew 0\nread %s\nstates\nwritenv %s/bo_%d.p21\nwritews %s/bo_%d.ws\n" % (k, j[1], wd, id(js) % 100000, wd, id(js) % 100000)
+                         for k, j in enumerate(js)) + "quit\n"
+        resf = os.path.join(wd, "bres_%d" % (id(js) % 100000))
+        t0 = time.time()
+        try:
+            q = subprocess.run([js[0][2], resf], input=script.encode(), env=env, stdout=subprocess.DEVNULL, stderr=subprocess.PIPE, timeout=180)
+            err = q.stderr.decode("latin-1")
+            clean = q.returncode == 0 and "ERROR: AddressSanitizer" not in err and "runtime error:" not in err
+        except subprocess.TimeoutExpired:
+            clean = False
+        for f in (resf, "%s/bo_%d.p21" % (wd, id(js) % 100000), "%s/bo_%d.ws" % (wd, id(js) % 100000)):
+            if os.path.exists(f):
+                os.unlink(f)
+        if clean:
+            secs = round((time.time() - t0) / len(js), 3)
+            return [(j[0], 0, False, False, "", secs, "") for j in js]
+        return [one(j, limit=20) for j in js]
     # exhaustive short inputs per attribute kind: every string up to length 2 (quick) / 3 (thorough) over the kind's
     # alphabet of spec/P21Lex.tla extended by the Part 21 punctuation, fed to STEPattribute::STEPread of the sanitizer build
     from checks import c09
@@ -224,6 +259,13 @@ def run(ctx):
             lines.append(json.dumps({"e": "Run", "input": tag, "rc": rc if 0 <= rc < 1000 else 999, "signalled": rc < 0 or rc == 134, "sanitizer": san,
                                      "timedout": to, "secs": secs}))
             meta.append((tag, frame, err))
+    with cf.ThreadPoolExecutor(max_workers=14) as ex:
+        for rs in ex.map(batch, [charjobs[k:k + 150] for k in range(0, len(charjobs), 150)]):
+            for tag, rc, to, san, frame, secs, err in rs:
+                lines.append(json.dumps({"e": "Run", "input": tag, "rc": rc if 0 <= rc < 1000 else 999, "signalled": rc < 0 or rc == 134, "sanitizer": san,
+                                         "timedout": to, "secs": secs}))
+                meta.append((tag, frame, err))
+    inputs = inputs + charjobs
     tp = os.path.join(wd, "trace.ndjson")
     open(tp, "w").write("\n".join(lines) + "\n")
     got = []
@@ -235,7 +277,7 @@ def run(ctx):
         ev = rep["ev"]
         tag, frame, err = meta[rep["line"] - 1]
         what = "sanitizer" if ev["sanitizer"] else "signal" if ev["signalled"] else "timeout" if ev["timedout"] else "status"
-        origin = ":".join(tag.split(":")[:2]) if tag.startswith(("boundary", "fault")) else tag.split(":")[0]
+        origin = ":".join(tag.split(":")[:2]) if tag.startswith(("boundary", "fault", "char")) else tag.split(":")[0]
         try:
             content = open(paths[tag], "rb").read()[-1500:].decode("latin-1")
         except (OSError, KeyError):
@@ -244,7 +286,7 @@ def run(ctx):
                       "%s: reading/writing %s (rc %s, %.1fs) %s" % (what, tag, ev["rc"], ev["secs"], frame),
                       {"input_tag": tag, "input_tail": content, "stderr_tail": err})
     shutil.rmtree(wd, ignore_errors=True)
-    kindsn = ("boundary", "fault", "valid", "truncate", "mutate")
+    kindsn = ("boundary", "fault", "valid", "truncate", "mutate", "char")
     cov = {"states": d.distinct, "evaluations": len(inputs), "distinct_nontrivial": len(inputs), "unsafe_runs": len(got),
            "inputs_by_origin": {k: sum(1 for t, _, _ in inputs if t.startswith(k)) for k in kindsn},
            "short_tokens_exhaustive": ntok, "token_batches": len(tokruns),
